@@ -300,13 +300,16 @@ double Interpolation::Local_Minimum(double x_1, double x_2)
 	double f_right = Interpolate(x_2);
 	int i_1		   = Locate(x_1);
 	int i_2		   = Locate(x_2);
-	if(i_1 == i_2)
+	// The knots inside [x_1,x_2]: i_1+1,...,i_2, and the end knots if a limit lies in the extrapolation zone.
+	int first = (x_1 < domain[0]) ? i_1 : i_1 + 1;
+	int last  = (x_2 > domain[1]) ? i_2 + 1 : i_2;
+	if(first > last)
 		return std::min(f_left, f_right);
 	else
 	{
-		// Find the smallest value the curve takes at the knots i_1+1,...,i_2 (the prefactor may be negative).
-		double min_entry = prefactor * *std::min_element(function_values.begin() + i_1 + 1, function_values.begin() + i_2 + 1);
-		double max_entry = prefactor * *std::max_element(function_values.begin() + i_1 + 1, function_values.begin() + i_2 + 1);
+		// Find the smallest value the curve takes at these knots (the prefactor may be negative).
+		double min_entry = prefactor * *std::min_element(function_values.begin() + first, function_values.begin() + last + 1);
+		double max_entry = prefactor * *std::max_element(function_values.begin() + first, function_values.begin() + last + 1);
 		return std::min({f_left, min_entry, max_entry, f_right});
 	}
 }
@@ -318,13 +321,16 @@ double Interpolation::Local_Maximum(double x_1, double x_2)
 	double f_right = Interpolate(x_2);
 	int i_1		   = Locate(x_1);
 	int i_2		   = Locate(x_2);
-	if(i_1 == i_2)
+	// The knots inside [x_1,x_2]: i_1+1,...,i_2, and the end knots if a limit lies in the extrapolation zone.
+	int first = (x_1 < domain[0]) ? i_1 : i_1 + 1;
+	int last  = (x_2 > domain[1]) ? i_2 + 1 : i_2;
+	if(first > last)
 		return std::max(f_left, f_right);
 	else
 	{
-		// Find the largest value the curve takes at the knots i_1+1,...,i_2 (the prefactor may be negative).
-		double min_entry = prefactor * *std::min_element(function_values.begin() + i_1 + 1, function_values.begin() + i_2 + 1);
-		double max_entry = prefactor * *std::max_element(function_values.begin() + i_1 + 1, function_values.begin() + i_2 + 1);
+		// Find the largest value the curve takes at these knots (the prefactor may be negative).
+		double min_entry = prefactor * *std::min_element(function_values.begin() + first, function_values.begin() + last + 1);
+		double max_entry = prefactor * *std::max_element(function_values.begin() + first, function_values.begin() + last + 1);
 		return std::max({f_left, min_entry, max_entry, f_right});
 	}
 }
